@@ -282,7 +282,7 @@ pub fn run(cfg: &Cfg) -> Report {
     let seed = cfg.seed;
     let depth = Depth { low_index: cfg.tier.pick(3, 4), order_bound: cfg.tier.pick(2000, 5000) };
     let mut symbols: Vec<MSym> = vec![];
-    for s in gen::connected_sets_upto(2, cfg.tier.pick(4, 6)) {
+    for s in gen::connected_sets_upto(2, cfg.tier.pick(5, 6)) {
         if gen::adjacent_orbits(&s).len() <= 6 {
             gen::for_all_branchings(&s, &|_, _| vec![1, 2, 3], &mut |x| symbols.push(x.clone()));
         }
